@@ -383,3 +383,25 @@ def c11_i6(ctx):
                     yield bad("C11-I6", key, at(c, t["span"]["line"]), "the entity configuration is looked up under %s, not %s: the transaction runs with another entity's (or the default) segment size, limits and fault handlers" % (sorted(srcs), what))
     if n == 0:
         raise Anchor("C11-I6", "entity_configs.get(..) in process_primitive / forward_pdu")
+
+
+# ================================================================ C11-I7
+def is_lossy_channel_send(cal):
+    """A channel send that also fails when the queue is merely full."""
+    return cal.startswith("tokio::sync::mpsc") and cal.split("::")[-1] in ("try_send", "try_reserve", "try_reserve_owned", "send_timeout")
+
+
+@rule("C11", "C11-I7", 1, "the daemon never mistakes a busy transaction for a finished one: PDUs and commands are handed to transaction tasks with the waiting send (which fails only when the task is gone), never with a send that also fails on a full queue")
+def c11_i7(ctx):
+    fns = [f for f in ctx.prog.by_norm.values() if f.crate == "cfdp_daemon" and (f.norm.startswith(DAEMON + "::") or (f.root or "").startswith(DAEMON + "::"))]
+    if len(fns) < 5:
+        raise Anchor("C11-I7", "functions of the Daemon")
+    n = 0
+    for f in fns:
+        for b, t in f.all_calls():
+            d, r, _ = ctx.prog.callee_of(t)
+            cal = r or d or ""
+            if is_lossy_channel_send(cal):
+                n += 1
+                yield bad("C11-I7", "%s:%s" % (short(f.root or f.norm), cal.split("::")[-1]) + ("#%d" % n if n > 1 else ""), at(f, t["span"]["line"]), "%s fails when the receiving task's queue is full as well as when the task has ended: a live transaction is treated as gone (its PDU dropped or a second transaction spawned under the same id)" % cal.split("::")[-1])
+    yield ok("C11-I7", "daemon:no-lossy-send", "%d functions" % len(fns), "%d non-waiting sends" % n, nontrivial=(n == 0))
